@@ -397,6 +397,12 @@ func sorterRules(c *core.Ctx) {
 							arg = mi.X
 						}
 						sameSlice := len(fn.Params) == 2 && arg == ssa.Value(fn.Params[1])
+						// sort.Slice(b.encoders, ..) after b.encoders = encoders: the field just stored holds the same slice
+						if ld, isLd := arg.(*ssa.UnOp); isLd && ld.Op == token.MUL && stored && !sameSlice {
+							if base, f, okF := fieldOfAddr(ld.X); okF && f.Name() == "encoders" && unspill(base) == recv {
+								sameSlice = true
+							}
+						}
 						bindsRecv := false
 						if mc, ok := x.Call.Args[1].(*ssa.MakeClosure); ok && len(mc.Bindings) == 1 {
 							if mc.Bindings[0] == recv {
